@@ -242,11 +242,63 @@ class Normaliser:
             text = ''.join(out)
         # N4 ref patterns in `for` headers
         text = self.ref_patterns(text, where)
+        # N10 `for` loops whose body uses `continue` (Verus: "for-loops do not yet support continue")
+        text = self.desugar_for_continue(text, where)
         # N5 visibility
         text2 = re.sub(r'\bpub\s*\(\s*(crate|super|self)\s*\)', 'pub', text)
         if text2 != text:
             self.note('N5', where, 'pub(crate)/pub(super)', 'pub')
         return text2
+
+    def desugar_for_continue(self, text, where):
+        """N10: `for PAT in EXPR { BODY }` with a `continue` that targets this loop becomes the Rust-reference
+        desugaring `{ let mut it__k = (EXPR).into_iter(); loop { let PAT = match it__k.next() { Some(v__k) => v__k,
+        None => break, }; BODY } }` - same evaluation order, `continue`/`break` keep their meaning."""
+        k = 0
+        while True:
+            m = rs.mask(text)
+            lps = [(kw, br) for (kw, br) in rs.loops(m, 0, len(m)) if m.startswith('for', kw)]
+            target = None
+            for (kw, br) in lps:
+                end = rs.match_close(m, br)
+                body = m[br + 1:end]
+                # `continue` occurrences not inside a nested loop of this body
+                nested = [(a + br + 1, rs.match_close(m, b + br + 1)) for (a, b) in rs.loops(body, 0, len(body))]
+                hit = False
+                for mm in re.finditer(r'\bcontinue\b', body):
+                    pos = mm.start() + br + 1
+                    if not any(a <= pos <= e for (a, e) in nested):
+                        hit = True
+                        break
+                if hit:
+                    target = (kw, br, end)
+                    break
+            if not target:
+                return text
+            kw, br, end = target
+            # pattern: from after `for` to ` in ` at depth 0
+            j = kw + 3
+            d = 0
+            inpos = -1
+            while j < br:
+                c = m[j]
+                if c in '([':
+                    d += 1
+                elif c in ')]':
+                    d -= 1
+                elif d == 0 and m[j:j + 2] == 'in' and not rs._ident_char(m[j - 1]) and not rs._ident_char(m[j + 2]):
+                    inpos = j
+                    break
+                j += 1
+            if inpos < 0:
+                raise GenError('%s: N10 cannot find `in` of a for loop' % where)
+            pat = text[kw + 3:inpos].strip()
+            expr = text[inpos + 2:br].strip()
+            k += 1
+            new = ('{ let mut it__%d = (%s).into_iter(); loop { let %s = match it__%d.next() { Some(v__%d) => v__%d, None => break, };'
+                   % (k, expr, pat, k, k, k))
+            self.note('N10', where, 'for %s in %s { ..continue.. }' % (pat, expr), new + ' .. } }')
+            text = text[:kw] + new + text[br + 1:end] + '} }' + text[end + 1:]
 
     def ref_patterns(self, text, where):
         pos = 0
